@@ -231,6 +231,10 @@ pub const CHANNELS: [(u32, SpreadingFactor, Bandwidth); 4] = [
 pub enum Recovery {
     Tx,
     Rx,
+    /// no recovery sequence: the application goes on with the rest of its calls (fault-free). The protocol
+    /// state is unknown from then on (I1/I4/I5 are not judged), the chip monitors I2/I3 stay: whatever goes
+    /// on the air or is listened to must be what the last request asked for, fully programmed
+    Continue,
 }
 
 #[derive(Clone, Debug)]
@@ -283,7 +287,7 @@ impl Case {
             "duty_sleep_phase": self.duty_sleep_phase,
             "fault_at": self.fault_at,
             "fault": self.fault_sel.as_ref().map(|(st, kd, fb, n)| json!({"step": st, "kind": kd, "spi_first_byte": fb, "occurrence": n})),
-            "recovery": self.recovery.map(|r| match r { Recovery::Tx => "prepare_for_tx+tx", Recovery::Rx => "prepare_for_rx+rx" }),
+            "recovery": self.recovery.map(|r| match r { Recovery::Tx => "prepare_for_tx+tx", Recovery::Rx => "prepare_for_rx+rx", Recovery::Continue => "continue" }),
             "constructor": (["new(public)", "new(private)", "with_syncword(0xAB)", "with_syncword(0x34)"][(self.ctor % 4) as usize]),
         })
     }
@@ -304,6 +308,7 @@ impl Case {
             recovery: match v["recovery"].as_str() {
                 Some("prepare_for_tx+tx") => Some(Recovery::Tx),
                 Some("prepare_for_rx+rx") => Some(Recovery::Rx),
+                Some("continue") => Some(Recovery::Continue),
                 _ => None,
             },
             ctor: match v["constructor"].as_str() {
@@ -387,6 +392,8 @@ struct Interp<RK: RadioKind> {
     sync_alt: Option<u16>,
     /// judging the fault-free sequence after an injected fault (weaker requirement: I2, I3, success)
     recovering: bool,
+    /// Recovery::Continue: the remaining calls of the sequence after an injected fault
+    continuing: bool,
     /// what the last prepare put on the air interface
     exp_freq: Option<u32>,
     exp_payload: Vec<u8>,
@@ -582,6 +589,16 @@ impl<RK: RadioKind> Interp<RK> {
             if let Op::SetSync { word } = op {
                 self.sync_alt = Some(*word);
             }
+            // what the failed call asked for is what a later transmission / reception without another
+            // prepare would have to use (Recovery::Continue)
+            match op {
+                Op::PrepTx { ch, len } => {
+                    self.exp_freq = Some(CHANNELS[*ch as usize % 4].0);
+                    self.exp_payload = tx_payload_for(idx, *len);
+                }
+                Op::PrepRx { ch, .. } | Op::RxSwitch { ch } | Op::Listen { ch } => self.exp_freq = Some(CHANNELS[*ch as usize % 4].0),
+                _ => {}
+            }
             return match &res {
                 Res::Err(_) => Ok(false),
                 other => Err(self.viol(case, st, "fault-not-swallowed", format!("fault-swallowed/{name}"), format!("{} failed but {name} returned {other:?}", fault_now.unwrap_or_default()))),
@@ -637,6 +654,10 @@ impl<RK: RadioKind> Interp<RK> {
 
         // ---- result expectations + protocol model update
         match (&res, op) {
+            // the rest of a sequence after an injected fault: the protocol state is unknown, a refusal or a
+            // failure of the call is as good as a success; what counts is what the chip was made to do
+            // (monitors above, values below)
+            (Res::Err(_), _) if self.continuing => {}
             (Res::Err(e), Op::Tx { .. } | Op::Rx { .. } | Op::CompleteRx { .. } | Op::Cad { .. }) => {
                 // failed because of a chip outcome (timeout, error flag)
                 self.classes.push("chip-outcome-error");
@@ -645,7 +666,7 @@ impl<RK: RadioKind> Interp<RK> {
                 if !delivered_error {
                     return Err(self.viol(case, st, "clean-result", format!("unexpected-error/{name}/{e}"), format!("{name} returned {e} although the chip reported {:?}", op.irq())));
                 }
-                if self.recovering {
+                if self.recovering && !self.continuing {
                     return Err(self.viol(case, st, "after-fault", format!("{name}-fails-with-{e}"), format!("{name} returned {e}")));
                 }
                 if continuous {
@@ -877,9 +898,11 @@ fn interp<RK: RadioKind>(rk: RK, world: Shared, case: &Case) -> RunOut {
         out.failure = Some(Failure::new(v.rule, cj, v.detail.clone()).with_fp(v.fp.clone()));
         return out;
     }
-    let mut it = Interp { lora, world: world.clone(), board: case.board, proto: PMode::Standby, sync: ctor_sync(case.ctor), sync_alt: None, recovering: false, exp_freq: None, exp_payload: vec![], saw_loss_or_failure: false, nontrivial: false, classes: vec![], carried_error: false, carried_done: false, carried_terminal: None };
+    let mut it = Interp { lora, world: world.clone(), board: case.board, proto: PMode::Standby, sync: ctor_sync(case.ctor), sync_alt: None, recovering: false, continuing: false, exp_freq: None, exp_payload: vec![], saw_loss_or_failure: false, nontrivial: false, classes: vec![], carried_error: false, carried_done: false, carried_terminal: None };
     let mut faulted = false;
+    let mut fault_idx = 0usize;
     for (idx, op) in case.ops.iter().enumerate() {
+        fault_idx = idx;
         match it.step(case, idx, op) {
             Err(f) => {
                 out.failure = Some(f);
@@ -910,9 +933,14 @@ fn interp<RK: RadioKind>(rk: RK, world: Shared, case: &Case) -> RunOut {
         let rec: Vec<Op> = match case.recovery {
             Some(Recovery::Tx) => vec![Op::PrepTx { ch: 2, len: 6 }, Op::Tx { irq: vec![Ev::Done] }],
             Some(Recovery::Rx) => vec![Op::PrepRx { mode: RxM::Single(30), ch: 3 }, Op::Rx { irq: vec![Ev::Done] }],
+            Some(Recovery::Continue) => {
+                it.continuing = true;
+                it.classes.push("continues-after-fault");
+                case.ops[fault_idx + 1..].to_vec()
+            }
             None => vec![],
         };
-        let base = case.ops.len();
+        let base = if it.continuing { fault_idx + 1 } else { case.ops.len() };
         for (j, op) in rec.iter().enumerate() {
             // an SX126x left in RX duty cycle by the faulted operation: the phase input still applies
             match it.step(case, base + j, op) {
@@ -924,6 +952,7 @@ fn interp<RK: RadioKind>(rk: RK, world: Shared, case: &Case) -> RunOut {
                     break;
                 }
                 Ok(true) => {}
+                Ok(false) if it.continuing => break,
                 Ok(false) => {
                     let mut cj = case.to_json();
                     cj["failing_step"] = json!(base + j);
@@ -1163,7 +1192,7 @@ pub fn fault_enumeration(st: &mut Stats, env: &Env, board: Board, prefix: &[Op],
             continue; // judged by the exhaustive generator
         }
         for k in ctor..out.interactions {
-            for rec in [Recovery::Tx, Recovery::Rx] {
+            for rec in [Recovery::Tx, Recovery::Rx, Recovery::Continue] {
                 let mut c = base.clone();
                 c.fault_at = Some(k);
                 c.recovery = Some(rec);
